@@ -85,12 +85,35 @@ type gReply struct {
 	err error
 }
 
+// lapsingFlash is the node's recent-hash memory: the repository's Flashback, replaced by an empty one when the
+// behaviour says that the 20 s window has passed.
+type lapsingFlash struct {
+	mu sync.Mutex
+	f  *cache.Flashback
+}
+
+func (l *lapsingFlash) cur() *cache.Flashback             { l.mu.Lock(); defer l.mu.Unlock(); return l.f }
+func (l *lapsingFlash) HasHash(h []byte) (bool, error)    { return l.cur().HasHash(h) }
+func (l *lapsingFlash) HasAddress(a string) (bool, error) { return l.cur().HasAddress(a) }
+func (l *lapsingFlash) RemoveAddress(a string) error      { return l.cur().RemoveAddress(a) }
+func (l *lapsingFlash) lapse() {
+	nf, err := cache.NewFlash()
+	if err != nil {
+		fatal("flash: %v", err)
+	}
+	l.mu.Lock()
+	old := l.f
+	l.f = nf
+	l.mu.Unlock()
+	_ = old.Close()
+}
+
 type gNode struct {
 	name   string
 	w      *wallet.Wallet
 	ab     *accountant.AccountingBook
 	cache  *cache.Hippocampus
-	flash  *cache.Flashback
+	flash  *lapsingFlash
 	jug    *pipe.Juggler
 	g      *gossip.VerifGossiper
 	cancel context.CancelFunc
@@ -246,8 +269,9 @@ func newVnet(b *gBehaviour, enc *json.Encoder) (*vnet, error) {
 			return nil, err
 		}
 		jug := pipe.New(16, 16)
-		gn := &gNode{name: name, w: w, ab: ab, cache: hc, flash: fl, jug: jug}
-		gn.g = gossip.VerifNew(ab, wallet.NewVerifier(), w, nopLogger{}, hc, fl, jug, "url-"+name, time.Second)
+		lf := &lapsingFlash{f: fl}
+		gn := &gNode{name: name, w: w, ab: ab, cache: hc, flash: lf, jug: jug}
+		gn.g = gossip.VerifNew(ab, wallet.NewVerifier(), w, nopLogger{}, hc, lf, jug, "url-"+name, time.Second)
 		n.nodes[name] = gn
 		n.byAddr[w.Address()] = name
 		n.pub[name] = w.Public
@@ -305,7 +329,7 @@ func (n *vnet) close() {
 		gn.jug.Close()
 		gn.ab.VerifClose()
 		gn.cache.Close()
-		gn.flash.Close()
+		_ = gn.flash.cur().Close()
 	}
 }
 
@@ -835,6 +859,12 @@ func (n *vnet) run() {
 			n.forge(op)
 		case "burst":
 			n.burst(op)
+		case "expire":
+			if gn := n.nodes[op.N]; gn != nil && !n.bad[op.N] {
+				n.settle()
+				gn.flash.lapse()
+				n.emit(map[string]any{"a": "Expire", "n": op.N})
+			}
 		case "poison":
 			n.poison(op)
 		}
